@@ -28,7 +28,9 @@ var orderCalls = map[string]bool{"GetBalance": true, "Cmp": true, "Sign": true, 
 	"SetFT": true, "SetData": true, "setData": true, "setBalance": true, "Suicide": true, "ProcessFee": true,
 	"StrToBigInt": true, "deductGasFee": true, "Create": true, "Call": true, "Execute": true, "BeforeExecute": true,
 	"preCheckContractFee": true, "decodeContractData": true, "validateNonce": true, "transferBalance": true,
-	"IntrinsicGas": true}
+	"IntrinsicGas": true, "GetMinerIdByAccount": true, "AddStake": true, "AddMiner": true, "GetRefundStake": true,
+	"AddRefundInfo": true, "Add": true, "ParseUint": true, "RemoveMiner": true, "UpdateMiner": true, "GetMiner": true,
+	"GetMinerById": true, "CheckAndMove": true, "CalculateReward": true, "IsContract": true}
 
 var orderFuncs = map[string]bool{
 	"src/service/game.go:transferBalance":                              true,
@@ -56,6 +58,16 @@ var orderFuncs = map[string]bool{
 	"src/service/refund_manager.go:RefundManager.CheckAndMove":         true,
 	"src/service/miner_manager.go:MinerManager.AddStake":               true,
 	"src/service/miner_manager.go:MinerManager.AddMiner":               true,
+	"src/service/miner_manager.go:MinerManager.RemoveMiner":            true,
+	"src/service/refund_manager.go:RefundManager.GetRefundStake":       true,
+	"src/executor/miner_executor.go:minerRefundExecutor.Execute":       true,
+	"src/executor/miner_executor.go:minerApplyExecutor.Execute":        true,
+	"src/executor/miner_executor.go:minerAddExecutor.Execute":          true,
+	"src/executor/miner_node_executor.go:minerNodeExecutor.Execute":    true,
+	"src/vm/instructions.go:opStake":                                   true,
+	"src/vm/instructions.go:opUnStake":                                 true,
+	"src/vm/instructions.go:opUnStakeAll":                              true,
+	"src/core/vmexecutor.go:VMExecutor.after":                          true,
 }
 
 type site struct {
